@@ -360,7 +360,16 @@ def r10(ctx):
             ctx.ok(fi, f"{name}: none of {len(oa.mutations)} mutation sites writes an argument array", role=f"inplace:{name}")
         if name != "check_convergence":
             # the result must not alias an argument either
-            aliased = [o for o in oa.returns if o.is_ext]
+            aliased = [o for o in oa.returns if o.is_ext or o.kind == "memo"]
+            # ... nor a memoised (process-wide) object: the Theta handed back by one solve would be overwritten by the next
+            memo_objs = {o for o in oa.stats["objects"] if o.kind == "memo"}
+            reach = oa.reachable(memo_objs)
+            shared = [(m, [o for o in m.targets if o in reach]) for m in oa.mutations
+                      if not any("functools.cache" in unparse(d) or "lru_cache" in unparse(d) for d in m.func.decorators)]
+            for m, objs in shared:
+                if objs:
+                    ctx.fail(fi, f"{name} writes a memoised, process-wide object at {describe(m)}: a result held by the caller changes when the next solve runs",
+                             role=f"shared-result:{name}:{m.kind}", expected="per-call storage", found=", ".join(map(str, objs))[:120])
             ctx.check(not aliased, fi, f"{name} returns a freshly allocated array (not one of its arguments)", role=f"fresh-result:{name}",
                       expected="fresh result", found=", ".join(map(str, aliased)))
 
